@@ -2188,11 +2188,8 @@ def setter_edits(rng, s):
                 edits.append(("union_add_enum", "unionMemberNotObject", (lambda t=t, old=old, enum=enum: setattr(t, "types", old + [enum])),
                               (lambda t=t, old=old: setattr(t, "types", old))))
             break
-    for t in s.types.values():
-        if isinstance(t, EnumType) and not t.name.startswith("__"):
-            old = list(t.values)
-            edits.append(("enum_values_clear", "enumEmpty", (lambda t=t: setattr(t, "values", [])), (lambda t=t, old=old: setattr(t, "values", old))))
-            break
+    # `EnumType.values` is a plain attribute next to private indexes (`_values`, `_reverse_values`, used by get_name /
+    # get_value): assigning it is not an edit through a public setter and leaves the type inconsistent - not generated
     return edits
 
 
